@@ -421,6 +421,9 @@ func dropGoComments(ns []templang.Node) []templang.Node {
 }
 
 func src(prog []templang.Node, v templang.Variant) string {
+	if v == 3 {
+		return srcOdd(prog, templang.OddAll)
+	}
 	return templang.HeaderV("p", v) + templang.Template("P", prog, v)
 }
 
@@ -469,6 +472,8 @@ var oddFeatures = []struct {
 	bit  int
 	name string
 }{
+	{templang.OddCRLF, "File.WindowsLineEndings"},
+	{templang.OddCallArgSpacing, "CallTemplateExpression.ArgumentsNotFormatted"},
 	{templang.OddGoCodeTwo, "GoCode.TwoStatementsOnOneLine"},
 	{templang.OddCondOneLine, "ConditionalAttribute.WrittenOnOneLine"},
 	{templang.OddExprComment, "StringExpression.BlockCommentInsideBraces"},
@@ -479,7 +484,18 @@ var oddFeatures = []struct {
 }
 
 func srcOdd(prog []templang.Node, odd int) string {
-	return templang.HeaderV("p", 3) + templang.TemplateOdd("P", prog, 3, odd)
+	s := templang.HeaderV("p", 3) + templang.TemplateOdd("P", prog, 3, odd)
+	// Windows line endings for every second program (chosen by the program, not by the spelling, so that switching
+	// another odd feature off does not switch this one)
+	if odd&templang.OddCRLF != 0 {
+		b, _ := json.Marshal(prog)
+		h := fnv.New32a()
+		h.Write(b)
+		if h.Sum32()%2 == 0 {
+			s = strings.ReplaceAll(s, "\n", "\r\n")
+		}
+	}
+	return s
 }
 
 // fileLevel names failures that concern the file's import block rather than the template (no ablation of the
